@@ -55,14 +55,16 @@ structure PlanOK : Prop where
   codes_nodup : ∀ k, (rankCodes (plan k).ranks).Nodup
   codes_sub : ∀ k, ∀ c ∈ rankCodes (plan k).ranks, c ∈ (plan k).allCodes
 
-/-- everything cached is what a resolution of that key on an empty table publishes; once a key has been
-    resolved (`all` set) everything it publishes is present; a key whose plan fails is never touched -/
+/-- everything cached is what a resolution of that key on an empty table publishes; once the entry of a key
+    ITSELF is present (`cache (none, k)`, the last write of `ws plan k`) everything its resolution publishes is
+    present — nothing is promised for a key whose resolution was interrupted after a prefix of its writes
+    (`all k` set, own entry absent); a key whose plan fails is never touched -/
 structure CInv (st : St K F E) : Prop where
   cache_sub : ∀ ck f, st.cache ck = some f → lastC ck (ws plan ck.2) = some f ∧ (plan ck.2).fail = false
   errors_sub : ∀ ck e, st.errors ck = some e → lastE ck (ws plan ck.2) = some e ∧ (plan ck.2).fail = false
   all_eq : ∀ k cs, st.all k = some cs → cs = (plan k).allCodes ∧ (plan k).fail = false
-  closed_c : ∀ k, st.all k ≠ none → ∀ c, st.cache (c, k) = lastC (c, k) (ws plan k)
-  closed_e : ∀ k, st.all k ≠ none → ∀ c, st.errors (c, k) = lastE (c, k) (ws plan k)
+  closed_c : ∀ k, st.cache (none, k) ≠ none → ∀ c, st.cache (c, k) = lastC (c, k) (ws plan k)
+  closed_e : ∀ k, st.cache (none, k) ≠ none → ∀ c, st.errors (c, k) = lastE (c, k) (ws plan k)
   top_all : ∀ k f, st.cache (none, k) = some f → st.all k ≠ none
 
 /-- does this lookup run `resolve` (and with it `mro`, `sort_types`, `typeorder`, `subclasscheck`)? -/
